@@ -55,6 +55,8 @@ type c30Case struct {
 	Ops       []opSpec    `json:"ops"`
 }
 
+const maxTotalPower = int64(1<<60 - 1) // tendermint MaxTotalVotingPower = MaxInt64/8
+
 const (
 	keyF12     = "cosmos-empty-keypath-absence-proof-accepted"
 	keyHeimDup = "heimdall-validator-index-double-count"
@@ -92,6 +94,10 @@ func genSet(t *rapid.T) []valSpec {
 			}
 		default:
 			out[i].Power = genPower().Draw(t, "power")
+		}
+		// tendermint refuses (panics on) sets whose total power exceeds MaxInt64/8
+		if lim := maxTotalPower / int64(n); out[i].Power > lim {
+			out[i].Power = lim
 		}
 	}
 	return out
@@ -565,7 +571,7 @@ func (r *runner) ensureStore() {
 // panicClass shortens a recovered panic message to a stable class name (digits removed).
 func panicClass(p string) string {
 	var o []byte
-	for i := 0; i < len(p) && len(o) < 60; i++ {
+	for i := 0; i < len(p) && len(o) < 44; i++ {
 		if p[i] >= '0' && p[i] <= '9' {
 			continue
 		}
@@ -586,7 +592,16 @@ func runC30(ctx *ev.Ctx, c c30Case) {
 		return
 	}
 	for _, s := range c.Sets {
-		if len(s) == 0 {
+		sum, seen := int64(0), map[int]bool{}
+		for _, v := range s {
+			if v.Power <= 0 || v.Power > maxTotalPower || seen[v.Key] || v.Key < 0 || v.Key >= 800 {
+				ctx.Label("malformed-case")
+				return
+			}
+			seen[v.Key] = true
+			sum += v.Power
+		}
+		if len(s) == 0 || len(s) > 64 || sum > maxTotalPower {
 			ctx.Label("malformed-case")
 			return
 		}
